@@ -151,8 +151,8 @@ def rule_ab(ctx, ix):
                 gs = [g for g, br in guard_chain(pm, st, f.node) if isinstance(g, ast.If)]
                 key = '%s@%s' % (norm(st), unparse(gs[0].test) if gs else '')
                 if key in exc:
-                    exc_txt[norm(st)] = exc[key]
-            stale = [k for k in exc if k.split('@')[0] not in exc_txt]
+                    exc_txt[id(st)] = exc[key]
+            stale = [k for k in exc if not exc_txt]
             if stale:
                 raise AnalysisError('stale exception row in C17.a for %s: %s' % (f.construct, stale))
         # a dirty flag: each write must set it
